@@ -340,7 +340,8 @@ def lut_cases(tier):
     cases = []
     for op in ("LOGISTIC", "TANH", "LEAKY_RELU", "HARD_SWISH"):
         for dtype in ("int8", "uint8"):
-            for s_in in scales_in:
+            # HARD_SWISH: one more input scale per binary exponent (the reference kernel takes different shift branches per exponent)
+            for s_in in scales_in + ([0.75 * 2.0 ** e for e in range(-10, 1)] if op == "HARD_SWISH" else []):
                 for zp in zps:
                     z_in = zp if dtype == "int8" else zp + 128
                     if op == "LOGISTIC":
